@@ -40,6 +40,17 @@ class ManagedScript(Strategy):
                     out = type(e).__name__
                 self._vf_outs.append([snap.row_id, phase, out])
 
+    def notify(self, action):
+        v = self._vf_view
+        if getattr(self, "_vf_notified", -1) != v.bar:
+            self._vf_notified = v.bar
+
+            class _S:  # the phase executor only needs row id and prices
+                row_id = v.bar
+                prices = v.prices
+
+            self._vf_phase("notify", _S)
+
     def before_bar(self, snap):
         self._vf_phase("before", snap)
 
